@@ -27,7 +27,7 @@ def fault_params(tier):
     D, L = fault_cfg(tier)
     shp = SHAPES_Q if tier == "quick" else SHAPES_T
     ps = [P("shape", 0, len(shp) - 1), P("fnode", 0, 3 if tier == "quick" else 4), P("phase", 0, 2), P("moment", 0, 1),
-          P("exckind", 0, 1), P("svc", 0, 3)]
+          P("exckind", 0, 1), P("svc", 0, 3), P("byref", 0, 1)]
     for j in range(D):
         ps += [P(f"gap{j}", 0, L), P(f"arm{j}", 0, 4)]
     return ps
@@ -46,6 +46,7 @@ def fault_fn(a, tier):
     # 0: nothing; 1: other nodes start a service slowly in start(); 2: ... whose startup stalls forever;
     # 3: other nodes start a task factory and a task with a slow start-up in it
     svc = pick(a["svc"], 4)
+    byref = pick(a["byref"], 2)  # the failing component's type is given as a "module:attr" string
     tape = DeviationTape([(a[f"gap{j}"], a[f"arm{j}"]) for j in range(D)], L)
     env = Env()
     exc = Boom("boom") if exckind == 0 else ComponentStartError("starting", "bogus.path", Component)
@@ -62,6 +63,7 @@ def fault_fn(a, tier):
             start.insert(1, ("svc", f"svc{i}", 2, svc == 2))
         node = NodeSpec(i, parents[i], prep, start)
         if i == fnode:
+            node.by_ref = bool(byref)
             if phase == 0:
                 node.init_raises = exc
             else:
@@ -74,7 +76,7 @@ def fault_fn(a, tier):
     async def main():
         async with Context():
             try:
-                await start_component(classes[0], {}, timeout=1000)
+                await start_component("harness.ctree:REFS.c0" if (byref and fnode == 0) else classes[0], {}, timeout=1000)
                 out["outcome"] = None
             except BaseException as e:  # noqa
                 out["outcome"] = e
@@ -89,7 +91,7 @@ def fault_fn(a, tier):
 
     _, escaped, k = run(main, chooser=tape)
     summary = {"parents": parents, "failing_component": fnode, "phase": PHASES[phase], "moment": ["first statement", "after a checkpoint"][moment],
-               "exception": type(exc).__name__, "others_start_service": ["no", "slow startup", "startup stalls forever", "a task factory task with a slow start-up"][svc], "schedule": tape.taken}
+               "exception": type(exc).__name__, "failing_component_declared_by": "'module:attr' string" if byref else "class object", "others_start_service": ["no", "slow startup", "startup stalls forever", "a task factory task with a slow start-up"][svc], "schedule": tape.taken}
     if escaped is not None:
         return FAIL(f"fault:escaped:{type(escaped).__name__}", f"{escaped!r} log={env.log}", summary)
     e = out["outcome"]
@@ -139,10 +141,10 @@ FAULT = Harness(
     name="F-fault",
     fn=fault_fn,
     params=fault_params,
-    cube=lambda tier: 3,
+    cube=lambda tier: 4,
     title="one component fails in one phase at one moment; every tree shape; deviation-bounded schedules",
     bound_text=lambda tier: f"all rooted trees with 1..{4 if tier == 'quick' else 5} components x failing component x phase{{creating,preparing,starting}} x "
-    "moment{first statement, after a checkpoint} x exception{plain Exception, a ComponentStartError instance} x other components "
+    "moment{first statement, after a checkpoint} x exception{plain Exception, a ComponentStartError instance} x type given as class / 'module:attr' string x other components "
     "{no service, start a service task with a slow start-up, with a start-up that never completes, start a task-factory task with a slow start-up}; FIFO schedule with "
     + ("one deviation within the first 8 decisions" if tier == "quick" else "one deviation within the first 12 decisions, trees of up to 5 components"),
     oracle="ComponentStartError(phase, path, class) with __cause__ the original exception object; no start() of any ancestor; no startup/watchdog "
